@@ -176,6 +176,21 @@ def run(ctx):
         elif len(g_.params) == 1 and len(comp.elt.args) == 1 and norm(comp.elt.args[0]) == "%s.member_id" % tv_:
             # the closure is handed the member's id itself
             units.append(("=" + g_.params[0], g_.node, comp.generators[0].iter))
+    # ... or a helper method of the protocol class handed the member and the assignment map
+    amap_alias = {}
+    amap0 = [unparse(x.targets[0]) for x in walk_body_shallow(gen.body) if isinstance(x, ast.Assign) and isinstance(x.value, ast.Call)
+             and call_name(x.value) == "_round_robin_assignment"]
+    for comp in [x for x in walk_body_shallow(gen.body) if isinstance(x, (ast.ListComp, ast.GeneratorExp)) and len(x.generators) == 1
+                 and not x.generators[0].ifs and isinstance(x.elt, ast.Call) and isinstance(x.elt.func, ast.Attribute)]:
+        g_ = prog.resolve_call(gen, comp.elt)
+        tv_ = unparse(comp.generators[0].target)
+        if g_ is None or g_.cls is not gen.cls or comp.elt.keywords:
+            continue
+        ps_ = [p_ for p_ in g_.params if p_ not in ("self", "cls")]
+        if len(ps_) == 2 and len(comp.elt.args) == 2 and norm(comp.elt.args[0]) == tv_ and amap0 and norm(comp.elt.args[1]) == amap0[0] and not any(
+                isinstance(y, ast.Name) and isinstance(y.ctx, ast.Store) and y.id in ps_ for y in ast.walk(g_.node)):
+            units.append((ps_[0], g_.node, comp.generators[0].iter))
+            amap_alias[id(g_.node)] = ps_[1]
     ok = False
     for lv, scope_, it_ in units:
         encs = [c for c in ast.walk(scope_) if isinstance(c, ast.Call) and call_name(c) == "encode_sync_group_member_assignment"]
@@ -186,6 +201,8 @@ def run(ctx):
             amap = [unparse(x.targets[0]) for x in walk_body_shallow(gen.body) if isinstance(x, ast.Assign) and isinstance(x.value, ast.Call)
                     and call_name(x.value) == "_round_robin_assignment"]
             mid = lv[1:] if lv.startswith("=") else "%s.member_id" % lv
+            if id(scope_) in amap_alias and amap:
+                amap = [amap_alias[id(scope_)]]
             ok = (bool(amap) and norm(av) in ("%s.get(%s, {})" % (amap[0], mid),) and norm(mems[0].args[0]) == mid
                   and ((encv and norm(mems[0].args[1]) == encv[0]) or mems[0].args[1] is encs[0]) and unparse(it_) == gen.params[1])
     r.check(ok, "%s#blob-keyed-by-member" % gen.qname, "blob and lookup do not use the same member id, or absent members do "
